@@ -12,17 +12,21 @@
 pub trait Write {
     /// every byte the sink has accepted so far
     spec fn sink(&self) -> Seq<u8>;
+    /// whatever else the object is besides a sink (for a two-way device: its input side) - writing does not touch it
+    spec fn beside_sink(&self) -> Seq<u8>;
     fn write_all(&mut self, buf: &[u8]) -> (r: Result<(), IoErrorStandIn>)
         ensures
             r is Ok ==> final(self).sink() == old(self).sink() + buf@,
-            r is Err ==> delivered_prefix(old(self).sink(), final(self).sink(), buf@);
+            r is Err ==> delivered_prefix(old(self).sink(), final(self).sink(), buf@),
+            final(self).beside_sink() == old(self).beside_sink();
     /// one write call: the sink takes SOME of the bytes (possibly none, possibly not all)
     fn write(&mut self, buf: &[u8]) -> (r: Result<usize, IoErrorStandIn>)
         ensures
             r is Ok ==> r->Ok_0 <= buf@.len() && final(self).sink() == old(self).sink() + buf@.take(r->Ok_0 as int),
-            r is Err ==> final(self).sink() == old(self).sink();
+            r is Err ==> final(self).sink() == old(self).sink(),
+            final(self).beside_sink() == old(self).beside_sink();
     fn flush(&mut self) -> (r: Result<(), IoErrorStandIn>)
-        ensures final(self).sink() == old(self).sink();
+        ensures final(self).sink() == old(self).sink(), final(self).beside_sink() == old(self).beside_sink();
 }
 pub closed spec fn delivered_prefix(before: Seq<u8>, after: Seq<u8>, buf: Seq<u8>) -> bool {
     exists|k: int| 0 <= k < buf.len() && after == before + buf.take(k)
@@ -31,6 +35,8 @@ pub closed spec fn delivered_prefix(before: Seq<u8>, after: Seq<u8>, buf: Seq<u8
 pub trait Read {
     /// every byte the stream will still deliver (prophetic view of the underlying device)
     spec fn rest(&self) -> Seq<u8>;
+    /// whatever else the object is besides a source (for a two-way device: its output side) - reading does not touch it
+    spec fn beside_source(&self) -> Seq<u8>;
 }
 
 /// length of the first line of s: up to and including the first d, or all of s when it holds no d
@@ -58,6 +64,7 @@ impl<'a, 'b, R: Read> BufReader<'a, 'b, R> {
             // the BufReader keeps reading from the same underlying reader
             *final(*final(self).inner) == *final(*old(self).inner),
             *final(final(self).inner) == *final(old(self).inner),
+            (**final(self).inner).beside_source() == (**old(self).inner).beside_source(),
             r is Ok && old(self).cap == 1 ==> {
                 let s = (**old(self).inner).rest();
                 &&& (**final(self).inner).rest() == s.skip(line_len(s, d) as int)
